@@ -107,6 +107,15 @@ def forms(ch, T, kT, U, kU):
         L.append(('cast-chain', '(long double)(float)a;'))
         L.append(('to-long-double', 'ld1 = a;'))
         L.append(('from-long-double', 'c = ld1 * 0 + (long double)b;') if T != '_Bool' else ('to-long-double', 'ld1 = a;'))
+        # long double operands pending while the other operand is evaluated: right-nested up to 12 deep (the x87 stack has 8 slots) and
+        # across calls whose own evaluation needs the x87 stack empty
+        d = ch.choice([3, 7, 8, 9, 12])
+        e = '(long double)a'
+        for i in range(d):
+            e = '%s %s (%s)' % (ch.choice(['ld1', 'ld2', '(long double)b', 'ld3']), ch.choice(['+', '-', '*']), e)
+        L.append(('ld-right-nested-%d' % d, 'ld3 = 0.25L; c = (%s)(%s) * 0 + b;' % (T, e)) if T != '_Bool' else ('to-long-double', 'ld1 = a;'))
+        L.append(('ld-call-in-rhs', 'ld3 = 0.25L; ld3 = ld1 + @deep((long double)a, ld2); ld3 = 0.25L;'))
+        L.append(('ld-compare-call', 'q = (ld1 < @deep((long double)a, ld2)) * 0;'))
     return L
 
 
@@ -115,12 +124,11 @@ class C20:
     level = 'exploration'
     rule = ('cases = (form, operand type T, second type U, operand values, repetition count N in {1,7,8,9,64,100000}): ~45 expression/statement forms in discard contexts (expression '
             'statement, comma operands, void cast, unused call / ?: / statement expression, for-clauses, unused comparisons, casts, member/index/deref reads) and value contexts (chained '
-            'assignment, op= chains, ++/--, nested and variadic calls, conditional operands, long double round trips) over 16 types incl. long double and three by-value struct types, plus alloca. '
+            'assignment, op= chains, ++/--, nested and variadic calls, conditional operands, long double round trips, long double operands pending across 3..12 nested operations and across calls) over 16 types incl. long double and three by-value struct types, plus alloca. '
             'Invariants read by assembly probes from the same frame before and after the loop: rsp unchanged (alloca: bounded decrease), x87 TOP/tag word unchanged and empty; a long double '
             'expression evaluated afterwards and every printed value must equal gcc and clang. non-trivial = result type is long double or an aggregate, or the form pushes a temporary, and N >= 8; '
             'distinct by (form, T, U, N).')
     assumptions = ['gcc/clang leave rsp and the x87 stack balanced around a statement (they print the same probe values before and after)',
-                   'D45 (more than 8 pending long double temporaries overflow the x87 register stack) recorded: expressions here nest at most 3 long double temporaries',
                    'D74 (a jump out of a statement expression while temporaries of the enclosing expression are pushed leaves them on the stack) recorded: jumps out of statement expressions are generated only at statement level']
 
     def budget(self, tier):
@@ -137,6 +145,7 @@ class C20:
                  % (T, T, init_for(ch, T, kT), T, T, T))
         if kT in 'if':
             decls += 'static int @va(int n, ...) { return n; }\n'
+            decls += 'static long double @deep(long double x, long double y) { return x + (y + (x + (y + (x + (y + (x + (y * 0.5L))))))); }\n'
         body = ['%s a = %s, b = %s, c = %s;' % (T, init_for(ch, T, kT), init_for(ch, T, kT), init_for(ch, T, kT)),
                 '%s u = %s, v = %s;' % (U, init_for(ch, U, kU), init_for(ch, U, kU)),
                 '%s *pa = &a; %s arr[2] = { %s, %s }; struct { char pad; %s m; } w = { 1, %s }; %s (*fp)(void) = @f;' % (T, T, init_for(ch, T, kT), init_for(ch, T, kT), T, init_for(ch, T, kT), T),
@@ -151,7 +160,7 @@ class C20:
         body.append('{ long double chk = ld1 * ld2 + ld3 - (long double)q * 0; printf("@ chk %Lg %d\\n", chk, (int)(k + q * 0)); }')
         if kT in 'if':
             body.append('printf("@ val %Lg %Lg %Lg\\n", (long double)a, (long double)b, (long double)c);')
-        nt = (tag, T, U, N) if ((T == 'long double' or kT == 'a' or tag in ('call-arg', 'call-nested', 'chain-assign', 'cond-assign', 'call-variadic', 'op-assign-chain', 'alloca', 'stmt-expr-value', 'to-long-double', 'from-long-double', 'cast-chain')) and N >= 8) else None
+        nt = (tag, T, U, N) if ((T == 'long double' or kT == 'a' or tag in ('call-arg', 'call-nested', 'chain-assign', 'cond-assign', 'call-variadic', 'op-assign-chain', 'alloca', 'stmt-expr-value', 'to-long-double', 'from-long-double', 'cast-chain') or tag.startswith('ld-')) and N >= 8) else None
         return diffprog.Case(decls=decls, body='\n'.join('  ' + l for l in body) + '\n', nt=nt, tags=['form:' + tag, 'T:' + T, 'N:%d' % N])
 
     def example(self, ch, ctx):
